@@ -43,8 +43,9 @@ def gen_cases(tier, seed):
         c['full'] = r.random() < 0.5
         if c.get('I0_form') in ('set', 'frozenset'):
             c['I0_form'] = 'list'
-        if c.get('R0_form') == 'set':
+        if c.get('R0_form') in ('set', 'iterator', 'generator'):
             c['R0_form'] = 'list'
+        c['ic_defaultdict'] = (k % 5 == 4)
         out.append(c)
     nb = 6 if q else 32
     for b in range(nb):
@@ -107,16 +108,30 @@ def run_case(case):
     sim = case['sim']
     mode = 'full' if case.get('full') else 'arrays'
     call = simreg.build_call(case)
+    if case.get('ic_defaultdict') and sim in ('Gillespie_simple_contagion', 'Gillespie_complex_contagion'):
+        import collections
+        pos = 3 if sim == 'Gillespie_simple_contagion' else 4
+        IC = call.args[pos]
+        common = collections.Counter(IC.values()).most_common(1)[0][0]
+        dd = collections.defaultdict(lambda: common)
+        for n_, s_ in IC.items():
+            if s_ != common:
+                dd[n_] = s_
+        call.args[pos] = dd
     try:
         simcase.seed_all(case['seed'])
         with Tripwires() as tw:
             a = call.f(*call.args, **call.kw)
         bump(res, 'tripwire_calls_monitored')
         st_a = (random.getstate(), np.random.get_state()[1].tobytes(), np.random.get_state()[2])
-        call2 = simreg.build_call(case)
+        # "repeated calls": the caller naturally passes the very same argument objects again (graph, IC mapping, spec graphs, containers)
+        call2 = call
         simcase.seed_all(case['seed'])
         b = call2.f(*call2.args, **call2.kw)
         st_b = (random.getstate(), np.random.get_state()[1].tobytes(), np.random.get_state()[2])
+        simcase.seed_all(case['seed'])
+        b3 = call.f(*call.args, **call.kw)
+        third_same = _digest(call, b3) == _digest(call, a)
     except Exception as e:
         viol(res, '%s|%s|exception:%s' % (sim, mode, simcase.exc_key(e)), {'err': repr(e)})
         return res
@@ -124,8 +139,8 @@ def run_case(case):
         viol(res, '%s|entropy_source_other_than_the_two_seeded_generators' % sim, {'uses': tw.hits})
     da, db = _digest(call, a), _digest(call2, b)
     bump(res, 'repeat_pairs_compared')
-    if da != db:
-        viol(res, '%s|%s|repeated_call_differs' % (sim, mode), {'digest_1': da[:16], 'digest_2': db[:16]})
+    if da != db or not third_same:
+        viol(res, '%s|%s|repeated_call_differs' % (sim, mode), {'digest_1': da[:16], 'digest_2': db[:16], 'third_call_equal_to_first': third_same})
     elif st_a != st_b:
         viol(res, '%s|%s|generator_state_after_call_differs' % (sim, mode), {})
     if kind == 'modes':
